@@ -23,7 +23,7 @@ func c07(e *Env) {
 	r.Rule("every type × canonical values (as C01) × 4 trailing byte strings {empty, 1..64 random bytes, another valid image of the type, the image itself}; plus streams: 2..30 frames of mixed body types per frame type, per-module sequences of body messages in a known type order, once concatenated from individual encodings, once produced through one shared send buffer, and once decoded into one reused receiver object per type (a read loop). distinct_nontrivial = distinct (value hash, tail kind) with a non-empty image + distinct streams")
 	r.Explain("Oracle: after Decode(image‖tail) the buffer's unread bytes are exactly tail, byte for byte, and the decoded message ≡ the original (computed fields = their correct values). Streams: n successive decodes return the n originals in order and leave the buffer empty.")
 	types := e.Types()
-	n := e.N(200, 8000)
+	n := e.N(200, 40000)
 	acc := newFeatAcc()
 	e.Par(len(types), func(i int) {
 		t := types[i]
@@ -95,7 +95,7 @@ func c07(e *Env) {
 	})
 	// ---- streams
 	if e.Only == "" {
-		nstream := e.N(2000, 60000)
+		nstream := e.N(2000, 250000)
 		var frames []*schema.Type
 		byMod := map[string][]*schema.Type{}
 		for _, t := range e.S.Order {
